@@ -590,6 +590,18 @@ def encode_tree(t, I, problems):
     return out
 
 
+def py_run_safe(cparser, symbols, fuel, I):
+    """py_run, but an exception that is not one of the modelled crashes of Parser.parse is
+    returned as the pseudo result [13, 3, 99] plus a problem string starting with 'exception:'."""
+    try:
+        return py_run(cparser, symbols, fuel, I)
+    except TranslationError:
+        raise
+    except Exception as ex:      # noqa: anything Parser.parse raises is an observation, not a harness error
+        fr = traceback.extract_tb(ex.__traceback__)[-1]
+        return [13, 3, 99], ["exception: %r in %s (%s:%s)" % (ex, fr.name, os.path.basename(fr.filename), fr.lineno)]
+
+
 CRASH = {"token-index": 1, "assert-accept": 2, "empty-stack": 3, "goto-key": 4, "action-key": 5}
 
 
@@ -627,7 +639,8 @@ def py_run(cparser, symbols, fuel, I):
         if int(tok.text) != e.index:
             problems.append("error token is token %s but error index is %d" % (tok.text, e.index))
     elif e.index == len(symbols):
-        if tok != lr1.Symbol(lr1.END_OF_INPUT):
+        # the end marker appended by Parser.parse: Symbol('$') (before ca2355e) or Token('$', '', end location)
+        if getattr(tok, "symbol", None) != lr1.END_OF_INPUT or getattr(tok, "text", "") != "":
             problems.append("error token at end of input is %r" % (tok,))
     else:
         problems.append("error index %d beyond the input" % e.index)
